@@ -15,6 +15,16 @@ SPECS["C18"] = {
          "quick": {"params": {"N": n}, "unwind": 16} if n <= 3 else None,
          "thorough": {"params": {"N": n}, "unwind": 16}}
         for n in (1, 2, 3, 4)
+    ] + [
+        {"name": "H1-alphabet-%d" % n, "pkg": "parser", "files": ["parser/c18.go"], "fn": "VerifC18LexPositions",
+         "what": "all inputs of exactly %d bytes over {a,1,space,newline,#,/,*,quote,r,backslash} (block comments, raw multi-line strings)" % n, "reach": ["lexed"],
+         "quick": {"params": {"N": n, "ALPHA": 1}, "unwind": 20, "wall_s": 600} if n <= 4 else None,
+         "thorough": {"params": {"N": n, "ALPHA": 1}, "unwind": 20, "wall_s": 3000}}
+        for n in (4, 5, 6)
+    ] + [
+        {"name": "H3-separation-and-error-position", "pkg": "parser", "files": ["parser/c18.go"], "fn": "VerifC18Separation",
+         "what": "two statements separated by 12 comment/whitespace arrangements; planted offending token after a second arrangement", "reach": ["parsed"],
+         "quick": {"unwind": 40, "wall_s": 600}, "thorough": {"unwind": 40, "wall_s": 600}},
     ],
     "assumptions": ["ASCII bytes (<0x80)"],
     "outside": ["inputs longer than the stated byte bound"],
